@@ -9,7 +9,7 @@ LEAN_MODULES = ["XmlDiffModel.Props.C07"] if THEOREMS else []
 SOURCES = ['diff.Differ.match', 'diff.Differ.node_ratio', 'diff.Differ.child_ratio', 'diff.Differ.append_match']
 RULE = 'Differ cluster: Differ.match() (similarity oracle recorded from the real node_ratio) vs. Match.matchNodes, match lists compared in order; oracle = the property read literally on the real match list (both projections injective, roots paired, members, kind, unique attributes). Non-trivial = script has >= 2 action types or a move; distinct by (L, R, options).'
 ASSUMPTIONS = [
-    "documents of the namespace-free C01 domain (elements, attributes, text, tails, comments); namespaced documents are exercised by the oracle streams only",
+    "documents of the C01 domain; namespaced documents (stream nsm) are compared with the model too, the step name of a Clark-notation tag being the prefix the working copy uses for its URI; only the namespace prologue (InsertNamespace / DeleteNamespace, prefix registration) is outside the model and exercised by the oracle stream ns",
     "similarity values (difflib.SequenceMatcher, sqrt) are an oracle recorded from the real node_ratio for every comparable pair",
 ]
-_cluster.make(sys.modules[__name__], 'C07', {'U4'}, [('main',3000),('ignored',1000)], [('main',60000),('ignored',20000),('equal',10000)])
+_cluster.make(sys.modules[__name__], 'C07', {'U4'}, [('main',3000),('ignored',1000),('nsm',500)], [('nsm',10000),('main',60000),('ignored',20000),('equal',10000)])
